@@ -30,7 +30,9 @@ def FS := Path → Option Node
 inductive Cls | mkdir | openat | write | rename
   deriving DecidableEq, Repr
 
-inductive Errno | eexist | enoent | other
+/-- The error VALUE of a failing call. `EEXIST`, `ENOENT` and `EINTR` are the ones the code paths (of std) branch on;
+every other errno is `other code` (code = the errno number), so a fault plan ranges over every error kind. -/
+inductive Errno | eexist | enoent | eintr | other (code : Nat)
   deriving DecidableEq, Repr
 
 /-- `flt cls n = some e`: the n-th (1-based) call of class `cls` fails with `e` without executing. -/
@@ -79,11 +81,11 @@ def sysOpenCreate (flt : Fault) (w : World) (p : Path) : World × Option Errno :
   match flt .openat k with
   | some e => (w1, some e)
   | none =>
-    if p.isEmpty then (w1, some .other)
+    if p.isEmpty then (w1, some (.other 21))
     else if !isDir w1.fs p.dropLast then (w1, some .enoent)
     else match w1.fs p with
-      | some .dir => (w1, some .other)
-      | some (.symlink _) => (w1, some .other)
+      | some .dir => (w1, some (.other 21))
+      | some (.symlink _) => (w1, some (.other 40))
       | _ => ({ w1 with fs := upd w1.fs p (.file []) }, none)
 
 /-- `write(fd, content)` on the file just opened at `p` (all bytes in one call). -/
@@ -93,12 +95,32 @@ def sysWrite (flt : Fault) (w : World) (p : Path) (content : List Char) : World 
   | some e => (w1, some e)
   | none => ({ w1 with fs := upd w1.fs p (.file content) }, none)
 
+/-- How many consecutive `EINTR`s are retried before the model gives up (std retries for ever; a plan that
+interrupts more often than this is treated as a failure, which only makes the theorems stronger). -/
+def retryFuel : Nat := 64
+
+/-- `File::create` / `OpenOptions::open`: std's `cvt_r` re-issues the `openat` when it fails with `EINTR`. -/
+def openRetry (flt : Fault) : Nat → World → Path → World × Option Errno
+  | 0, w, p => sysOpenCreate flt w p
+  | fuel + 1, w, p =>
+    match sysOpenCreate flt w p with
+    | (w1, some .eintr) => openRetry flt fuel w1 p
+    | r => r
+
+/-- `write_all`: an `EINTR` (`ErrorKind::Interrupted`) is ignored and the `write` re-issued. -/
+def writeRetry (flt : Fault) : Nat → World → Path → List Char → World × Option Errno
+  | 0, w, p, c => sysWrite flt w p c
+  | fuel + 1, w, p, c =>
+    match sysWrite flt w p c with
+    | (w1, some .eintr) => writeRetry flt fuel w1 p c
+    | r => r
+
 /-- `std::fs::write(path, content)`. -/
 def writeFile (flt : Fault) (w : World) (p : Path) (content : List Char) : World × Option Errno :=
-  let (w1, r) := sysOpenCreate flt w p
+  let (w1, r) := openRetry flt retryFuel w p
   match r with
   | some e => (w1, some e)
-  | none => if content.isEmpty then (w1, none) else sysWrite flt w1 p content
+  | none => if content.isEmpty then (w1, none) else writeRetry flt retryFuel w1 p content
 
 /-- `std::fs::create_dir_all(path)`; the path is given REVERSED (innermost component first) so that
 the recursion on the parent is structural. `[]` is the working directory `"."`, whose parent `""`
@@ -181,7 +203,7 @@ def sysRename (flt : Fault) (w : World) (s t : Name) : World × Option Errno :=
   | none =>
     if w1.fs [s] != some Node.dir then (w1, some .enoent)
     else match w1.fs [t] with
-      | some _ => (w1, some .other)
+      | some _ => (w1, some (.other 20))
       | none =>
         ({ w1 with fs := fun q =>
             match q with
@@ -217,15 +239,25 @@ def scaffoldProject (flt : Fault) (keys : Keys) (stg : Nat → Name) (name : Nam
         | (w3, some _) => ({ w3 with fs := removeTop w3.fs s }, .err)
         | (w3, none) => (w3, .ok)
 
-/-- The `println!` lines after a successful scaffold: each is one `write(1, …)`; a failing one makes
+/-- The `println!` lines after a successful scaffold: each is one `write(1, …)` (re-issued on `EINTR`); a failing one makes
 `println!` panic (exit status 101) — after the project is already in place. -/
+def printOne (flt : Fault) : Nat → World → World × Bool
+  | 0, w =>
+    let (w1, k) := tick .write w
+    (w1, (flt .write k).isNone)
+  | fuel + 1, w =>
+    let (w1, k) := tick .write w
+    match flt .write k with
+    | none => (w1, true)
+    | some .eintr => printOne flt fuel w1
+    | some _ => (w1, false)
+
 def printLines (flt : Fault) : Nat → World → World × Status
   | 0, w => (w, .ok)
   | n + 1, w =>
-    let (w1, k) := tick .write w
-    match flt .write k with
-    | some _ => (w1, .panic)
-    | none => printLines flt n w1
+    match printOne flt retryFuel w with
+    | (w1, false) => (w1, .panic)
+    | (w1, true) => printLines flt n w1
 
 /-- `new_project(args)` in the working directory. -/
 def newProject (flt : Fault) (keys : Keys) (stg : Name → Nat → Name) (arg : List Char) (w : World) :
